@@ -875,6 +875,21 @@ func (ts *TermStore) toDy(a *Term) *Term {
 	if a.sort == SF64 && a.IsConst() {
 		return ts.dyOfConst(a)
 	}
+	if a.sort == SF64 && a.op == OpIte {
+		// a selection among values that are themselves convertible (e.g. ite(c, 1.0, 0.0))
+		return ts.Ite(a.args[0], ts.toDy(a.args[1]), ts.toDy(a.args[2]))
+	}
+	if a.sort == SF64 {
+		// exact-IEEE sums of convertible values are exact as long as the dyadic bound holds
+		switch a.op {
+		case OpFAdd:
+			return ts.FAdd(ts.toDy(a.args[0]), ts.toDy(a.args[1]))
+		case OpFSub:
+			return ts.FSub(ts.toDy(a.args[0]), ts.toDy(a.args[1]))
+		case OpFNeg:
+			return ts.FNeg(ts.toDy(a.args[0]))
+		}
+	}
 	unsup("mixing exact-IEEE symbolic float with dyadic value")
 	return nil
 }
